@@ -194,7 +194,7 @@ def compare(exp, pre_light, post_light, kind):
                 out.append(('spsr', 'spsr_%s %#010x expected %#010x' % (nme, post_sp[nme], exp['spsr'])))
         elif nme == sp_name and exp['spsr'] is None:
             pass
-        elif post_sp[nme] != pre_sp[nme]:
+        elif post_sp[nme] != pre_sp[nme] and kind != 'reset':      # registers are UNKNOWN after reset
             out.append(('other_spsr', 'spsr_%s changed %#x -> %#x' % (nme, pre_sp[nme], post_sp[nme])))
     lrname = LR_NAME.get(mode)
     for nme in RNAMES:
@@ -205,12 +205,12 @@ def compare(exp, pre_light, post_light, kind):
                 out.append(('lr', '%s %#x expected %#x' % (nme, postR[nme], exp['lr'])))
         elif nme == lrname and kind == 'reset':
             pass
-        elif postR[nme] != preR[nme]:
+        elif postR[nme] != preR[nme] and kind != 'reset':
             out.append(('other_reg', '%s changed %#x -> %#x' % (nme, preR[nme], postR[nme])))
     if exp['elr'] is not None:
         if post_light[3] != exp['elr']:
             out.append(('elr', 'elr_hyp %#x expected %#x' % (post_light[3], exp['elr'])))
-    elif post_light[3] != pre_light[3]:
+    elif post_light[3] != pre_light[3] and kind != 'reset':
         out.append(('other_reg', 'elr_hyp changed'))
     if (post_light[6] & 1) != exp['ns']:
         out.append(('scr.ns', 'SCR.NS %d expected %d' % (post_light[6] & 1, exp['ns'])))
